@@ -263,15 +263,21 @@ pub fn miri_run(args: &[String]) -> i32 {
         }
     }
     // the strain list under every op, incl. the unsafe transmute and slice casts
-    let mut v = rosu_pp::verif::StrainsVec::with_capacity(2);
-    for x in [1.0, 0.0, 0.0, 2.5, -1.0, 0.0, 3.0] {
-        v.push(x);
-    }
-    let a = v.clone().into_vec();
-    let b: Vec<f64> = v.iter().collect();
-    let mut c = v.clone();
-    c.retain_non_zero_and_sort();
-    let c = unsafe { c.transmute_into_vec() };
+    #[cfg(not(verif_degraded))]
+    let (a, b, c) = {
+        let mut v = rosu_pp::verif::StrainsVec::with_capacity(2);
+        for x in [1.0, 0.0, 0.0, 2.5, -1.0, 0.0, 3.0] {
+            v.push(x);
+        }
+        let a = v.clone().into_vec();
+        let b: Vec<f64> = v.iter().collect();
+        let mut c = v.clone();
+        c.retain_non_zero_and_sort();
+        let c = unsafe { c.transmute_into_vec() };
+        (a, b, c)
+    };
+    #[cfg(verif_degraded)]
+    let (a, b, c): (Vec<f64>, Vec<f64>, Vec<f64>) = (Vec::new(), Vec::new(), Vec::new());
     // decoder scratch buffers
     for (text, _) in pathbuf_cases("quick").iter().take(12) {
         let _ = Beatmap::from_str(text);
